@@ -407,6 +407,11 @@ func (p *planner) runeFamilies(fns []string, n int) {
 		p.group++
 		gen.OpsRune(fns, p.sfx, s, r, p.emit)
 	})
+	p.fam = "inner-repeat-decoys"
+	g.InnerRepeatDecoys(n, func(s []byte, r rune) {
+		p.group++
+		gen.OpsRune(fns, p.sfx, s, r, p.emit)
+	})
 	p.fam = "rune-in-text"
 	for i := 0; i < n; i++ {
 		s := g.Str(g.R.Intn(8))
